@@ -162,7 +162,7 @@ def gen_large_family(rng, hashseeds):
     base = pipe_common.gen_spec(rng, prof)
     base.pop('poison', None)
     wl = base['workload']
-    j = next(k for k, h in enumerate(wl['header']) if h != wl['label'])
+    j = [k for k, h in enumerate(wl['header']) if h != wl['label']][-1]      # last feature column: it is the conditioning side of (other, id) pairs
     for i, ln in enumerate(wl['lines']):
         if ln['ok']:
             ln['cells'][j] = f'id{i:06d}'          # identifier-like: as many distinct values as rows
